@@ -867,7 +867,10 @@ def fields_of(proj):
 LOSSY_COLLECTIONS = ('BTreeMap<', 'HashMap<', 'BTreeSet<', 'HashSet<', 'IndexMap<')
 
 
-def flows_forward(body, start_locals, through_calls=True, avoid_types=None):
+ERR_CONTEXT_ADAPTERS = ('::with_context', '::context', '::map_err', '::ok_or_else', '::ok_or', '::inspect_err', '::expect', '::unwrap_or_else')
+
+
+def flows_forward(body, start_locals, through_calls=True, avoid_types=None, err_context_receiver_only=False, mut_refs_only=False):
     """Locals (transitively) derived from start_locals, flow-insensitively.  With
     through_calls every call propagates from any argument to its destination and into any
     `&mut` argument's referent (approximated: the local the &mut was taken from)."""
@@ -878,11 +881,13 @@ def flows_forward(body, start_locals, through_calls=True, avoid_types=None):
         if b.cleanup:
             continue
         for (_, pl, rv) in b.stmts:
-            if rv[0] == 'ref' and not pl[1]:
+            # only MUTABLE references let a callee write into the referent (interior mutability is
+            # not modelled: no rule relies on it)
+            if rv[0] == 'ref' and not pl[1] and (rv[2] or not mut_refs_only):
                 refof[pl[0]].add(rv[1][0])
             if rv[0] == 'use' and rv[1][0] in ('copy', 'move') and not pl[1]:
                 # copies of references
-                if body.lty(pl[0]).startswith('&'):
+                if body.lty(pl[0]).startswith('&mut' if mut_refs_only else '&'):
                     refof[pl[0]].add(rv[1][1][0])
         t = b.term
         if t[0] == 'call' and t[1].args and not t[1].dest[1]:
@@ -910,6 +915,9 @@ def flows_forward(body, start_locals, through_calls=True, avoid_types=None):
             if t[0] == 'call' and through_calls:
                 c = t[1]
                 srcs = [a[1][0] for a in c.args if a[0] in ('copy', 'move')]
+                if err_context_receiver_only and any(n.endswith(ERR_CONTEXT_ADAPTERS) for n in c.names()):
+                    # the second operand only shapes the error value: the success payload derives from the receiver
+                    srcs = srcs[:1] if c.args and c.args[0][0] in ('copy', 'move') else []
                 if any(s in derived for s in srcs):
                     if c.dest[0] not in derived and not (avoid_types and any(x in body.lty(c.dest[0]) for x in avoid_types)):
                         derived.add(c.dest[0])
